@@ -288,11 +288,23 @@ def main(ctx):
 
     # 1. bounded models: refinement on every transition + export
     cfgs = ["MC_Mempool_quick.cfg"] if quick else ["MC_Mempool_thorough.cfg", "MC_Mempool_unlimited.cfg", "MC_Mempool_ric.cfg"]
-    per_kind = 6 if quick else 25
+    per_kind = 6 if quick else 16
     states = trans = 0
     cases, kinds_all, models = [], {}, []
+    runs = {}
+
+    def model(cfg, workers):
+        try:
+            runs[cfg] = vlib.tlc(ctx, "MC_Mempool.tla", cfg, workers=workers, timeout=3400, extra=["-seed", str(ctx.seed)])
+        except Exception as ex:  # noqa
+            runs[cfg] = ex
+    wk = max(2, min(8, ctx.cores // 2))
+    for cfg in cfgs:        # one after the other: concurrent JVMs thrash on a loaded machine
+        model(cfg, wk)
     for cfg in cfgs:
-        r = vlib.tlc(ctx, "MC_Mempool.tla", cfg, workers=max(2, min(12, ctx.cores - 2)), timeout=3400, extra=["-seed", str(ctx.seed)])
+        r = runs[cfg]
+        if isinstance(r, Exception):
+            raise r
         if not r.ok:
             raise vlib.CheckError("design-level Mempool model does not refine MempoolAbs / breaks %s (model-only, not a verdict):\n%s"
                                   % (r.invariant, (r.error or "")[:2000]))
@@ -325,7 +337,7 @@ def main(ctx):
     trace_m = concat(ctx, "trace_model.ndjson", [x[2] for x in res])
 
     # 3. random scenarios
-    nrand, rlen = (48, 60) if quick else (1600, 90)
+    nrand, rlen = (48, 60) if quick else (1200, 90)
     per = (nrand + nproc - 1) // nproc
     shards = [["-random", str(min(per, nrand - i * per)), "-len", str(rlen), "-first", str(i * per)] for i in range(nproc) if nrand - i * per > 0]
     res = run_sharded(ctx, drv, "random", shards)
